@@ -196,3 +196,102 @@ class DropnaPrune(_SubsetPrune):
 
 
 SPECS = [DropDuplicatesPrune(), DropnaPrune()]
+
+
+# ---------------------------------------------------------------------------------------------------------------------
+# the same family with other implicit keys: SortValues (by), SetIndexBlockwise (other)
+# ---------------------------------------------------------------------------------------------------------------------
+class _KeyPrune(_SubsetPrune):
+    key_attr = "by"
+    key_is_scalar = False
+
+    def make_inputs(self, ex, sym, fr):
+        env = super().make_inputs(ex, sym, fr)
+        me, parent = env["self"], env["parent"]
+        del me.attrs["subset"]
+        if self.key_is_scalar:
+            k0 = z3.Const("the_key_column", Lab)
+            me.attrs[self.key_attr] = k0
+            env["SUB"] = Seq.of([k0], "list")
+        else:
+            me.attrs[self.key_attr] = env["SUB"]
+        pcols = Opaque("parent_columns_operand")
+        parent.attrs["operand"] = contract_fn(lambda e, f, name: pcols if name == "columns" else Opaque("parent." + name))
+        me.attrs.update({"na_position": "last", "ignore_index": False, "ascending": True, "operand": contract_fn(lambda e, f, name: None if name == "sort_function" else Opaque("self." + name))})
+        env["pcols"] = pcols
+        return env
+
+    def call(self, ex, fr, name, args, kwargs):
+        if name == "_convert_to_list":
+            a = args[0]
+            if z3.is_expr(a):
+                return ex.new_list(fr, Seq.of([a], "list"))
+            return a
+        if name == "type(parent)":
+            if len(args) == 2 and args[1] == Opaque("parent_columns_operand"):
+                return Term("Parent", (args[0],))
+            from vf.pyvc.exec import Unsupported
+
+            raise Unsupported("the parent is rebuilt with other operands than its own")
+        return super().call(ex, fr, name, args, kwargs)
+
+
+class SortValuesPrune(_KeyPrune):
+    """SortValues._simplify_up with a Projection parent (its Head / Tail / Filter / Repartition branches are outside this contract)."""
+
+    file, qualname, key_attr = "dask_expr/_shuffle.py", "SortValues._simplify_up", "by"
+    scenario = "projection-branch"
+
+    def concrete_inputs(self):
+        for by in (["b"], ["a", "c"]):
+            for asc in (True, False):
+                for sel in (["a"], ["c", "a"], ["b"], ["d"], ["a", "b", "c", "d"]):
+                    yield {"by": by, "ascending": asc, "sel": sel}
+
+    def run_concrete(self, inputs):
+        pdf, df = self._frame()
+        x = df.sort_values(inputs["by"], ascending=inputs["ascending"])
+        return self._evaluate_keys(x, inputs["sel"], inputs["by"])
+
+    def _evaluate_keys(self, x, sel, keys):
+        import dask
+        import pandas as pd
+
+        from dask_expr._core import collect_dependents
+
+        q = x[sel]
+        out = x.expr._simplify_up(q.expr, collect_dependents(q.expr))
+        env = {"same_result": True, "keys_kept": True}
+        if out is not None:
+            def run(e):
+                e = e.optimize(fuse=False) if hasattr(e, "optimize") else e
+                parts = dask.get(dict(e.__dask_graph__()), e.__dask_keys__())
+                return pd.concat(parts)
+
+            a, b = run(q.expr), run(out)
+            env["same_result"] = a.reset_index(drop=True).equals(b.reset_index(drop=True)) or a.sort_values(list(a.columns)).reset_index(drop=True).equals(b.sort_values(list(b.columns)).reset_index(drop=True))
+            inner = out.frame if type(out) is type(q.expr) else out
+            env["keys_kept"] = all(c in inner.frame.columns for c in keys)
+        return env, out
+
+
+class SetIndexBlockwisePrune(_KeyPrune):
+    file, qualname, key_attr, key_is_scalar = "dask_expr/_shuffle.py", "SetIndexBlockwise._simplify_up", "other", True
+
+    def concrete_inputs(self):
+        for sel in (["a"], ["c", "a"], ["b"], ["a", "b", "d"]):
+            for drop in (True, False):
+                yield {"sel": sel, "drop": drop}
+
+    def run_concrete(self, inputs):
+        import dask_expr as dx
+        from dask_expr._shuffle import SetIndexBlockwise
+
+        pdf, df = self._frame()
+        x = dx.new_collection(SetIndexBlockwise(df.expr, "c", inputs["drop"], None))
+        if any(s not in x.columns for s in inputs["sel"]):
+            raise SkipInput()
+        return SortValuesPrune._evaluate_keys(self, x, inputs["sel"], ["c"])
+
+
+SPECS += [SortValuesPrune(), SetIndexBlockwisePrune()]
